@@ -3,8 +3,9 @@ import SdModel.Lemmas.DeriveIdx
 /-!
 # C04 — change detection is exact: one entry per changed field, none for unchanged ones
 
-`(relKind k).same` is the equality in the sense of each strategy: `=` for plain, nested, optional-nested and
-ordered fields (the generated code compares with the type's own `!=`, and `hirschberg` returns `None` exactly for
+`(relKind k).same` is the equality in the sense of each strategy: the type's own `==` (`Derive.veq`, a partial
+equivalence: `-0.0 == 0.0`, `NaN != NaN`) for plain, nested and optional-nested fields, `=` for ordered fields
+(the generated code compares with the type's own `!=`, and `hirschberg` returns `None` exactly for
 equal lists — `C07.absent_iff_eq`); equal counts for unordered arrays; equal as maps for flat maps; equal key sets
 (key-only) / equal maps (key-and-value) for recursive maps.
 -/
@@ -49,20 +50,27 @@ theorem struct_entries (fts : FieldTys) (x y : Vals) (hx : SWT (relFields fts) x
       simp only [Nat.zero_add] at this
       exact List.mem_map.mpr ⟨(j, p), this, rfl⟩
 
-/-- `a.diff(&a)` is empty — for every type -/
-theorem self_empty (t : Ty) (a : Val) (ha : (relTy t).wt a) : (semTy t).diff a a = [] := (spec_ty t).self a ha
+/-- `a.diff(&a)` is empty whenever equality on the fields is reflexive (`a == a` under the derived `PartialEq`: no
+`NaN` inside) — for every type -/
+theorem self_empty (t : Ty) (a : Val) (ha : (relTy t).wt a) (hr : veq a a = true) : (semTy t).diff a a = [] :=
+  (spec_ty t).self a ha hr
 
-/-- **C04 (enum)**: empty iff `a == b`, otherwise a single whole-value replacement -/
-theorem enum_diff (a b : Val) : (semTy .enum).diff a b = if a = b then [] else [(0, .val b)] := by
+/-- … and the hypothesis is needed: a plain field holding `NaN` is reported by `a.diff(&a)` -/
+theorem self_nonempty_nan :
+    (semTy (.struct (.cons false .plain .nil))).diff (.strct (.cons (.atom nanCode) .nil)) (.strct (.cons (.atom nanCode) .nil)) ≠ [] := by
+  decide
+
+/-- **C04 (enum)**: empty iff `a == b` (the enum's own `PartialEq`), otherwise a single whole-value replacement -/
+theorem enum_diff (a b : Val) : (semTy .enum).diff a b = if veq a b then [] else [(0, .val b)] := by
   simp [semTy, enumSem]
 
 /-- `diff_ref` reports exactly the same entries -/
 theorem diff_ref_same (t : Ty) (a b : Val) : (semTy t).diffRef a b = (semTy t).diff a b := (spec_ty t).ref_eq a b
 
 /-! what `same` means per strategy -/
-theorem same_plain (a b : Val) : (relKind .plain).same a b ↔ a = b := by simp [relKind, plainRel]
-theorem same_recurse (t : Ty) (a b : Val) : (relKind (.recurse t)).same a b ↔ a = b := by simp [relKind, recurseRel]
-theorem same_recurseOpt (t : Ty) (a b : Val) : (relKind (.recurseOpt t)).same a b ↔ a = b := by simp [relKind, roptRel]
+theorem same_plain (a b : Val) : (relKind .plain).same a b ↔ veq a b = true := by simp [relKind, plainRel]
+theorem same_recurse (t : Ty) (a b : Val) : (relKind (.recurse t)).same a b ↔ veq a b = true := by simp [relKind, recurseRel]
+theorem same_recurseOpt (t : Ty) (a b : Val) : (relKind (.recurseOpt t)).same a b ↔ veq a b = true := by simp [relKind, roptRel]
 theorem same_ordered (a b : Val) : (relKind .ordered).same a b ↔ a = b := by simp [relKind, orderedRel]
 theorem same_unord (a b : Val) : (relKind .unordArr).same a b ↔ ∀ x, (asList a).count x = (asList b).count x := by
   simp [relKind, unordRel]
@@ -72,7 +80,7 @@ theorem same_map (ko : Bool) (a b : Val) :
 theorem same_recMap (ko : Bool) (t : Ty) (a b : Val) :
     (relKind (.recMap ko t)).same a b ↔
       (∀ k, (RMap.kget (asRMap a) k).isSome = (RMap.kget (asRMap b) k).isSome) ∧
-      (ko = false → ∀ k pv cv, RMap.kget (asRMap a) k = some pv → RMap.kget (asRMap b) k = some cv → pv = cv) := by
+      (ko = false → ∀ k pv cv, RMap.kget (asRMap a) k = some pv → RMap.kget (asRMap b) k = some cv → veq pv cv = true) := by
   simp [relKind, recMapRel]
 
 end C04
